@@ -300,7 +300,8 @@ UNWRAPS = {'core::option::Option::unwrap', 'core::option::Option::expect', 'core
 
 def r4_no_panic(ctx):
     ctx.rule('C15.R4', 'P3 audit: no body under pavex::request::{path,query,body} calls a panic entry point, unwrap/expect, slices a str by a byte range, or contains an '
-             'arithmetic/bounds Assert terminator; positive control: the same query finds such sites elsewhere in pavex.')
+             'arithmetic/bounds Assert terminator (`debug_assert!`s, which release builds do not contain, are not counted); positive control: the same '
+             'query finds such sites elsewhere in pavex.')
     mods = (RQ + 'path::', RQ + 'query::', RQ + 'body::', '<' + RQ + 'path::', '<' + RQ + 'query::', '<' + RQ + 'body::')
     inside, outside, bodies, discharged = 0, 0, 0, 0
     for b in ctx.fb.bodies(CR):
@@ -313,6 +314,8 @@ def r4_no_panic(ctx):
         for bb, t in b.calls():
             c = callee(t) or ''
             if c.startswith(PANICS) or c in UNWRAPS:
+                if (t.get('mo') or '') in ('debug_assert', 'debug_assert_eq', 'debug_assert_ne'):
+                    continue        # a stated belief of the developers that is compiled out of the builds users run (`-C debug-assertions=off`)
                 sites.append((bb, t, c))
             elif c in ('core::ops::index::Index::index', 'core::ops::index::IndexMut::index_mut') and t['aty'] and \
                     t['aty'][0].replace('&mut ', '&') in ('&str', '&alloc::string::String') and len(t['aty']) > 1 and 'Range' in t['aty'][1]:
